@@ -2,6 +2,7 @@ import GV.Model.Link
 import GV.Model.Linkname
 import GV.Proofs.LinkDeps
 import GV.Proofs.LinkInit
+import GV.Proofs.LinkBoot
 import GV.Proofs.LinknameLemmas
 import GV.Props.C17
 
@@ -137,21 +138,34 @@ theorem machine_eq_direct (G : Prog α) (sched : α → Nat → Nat) (rank : α 
   exact ⟨n, m, by rw [h], by rw [h]⟩
 
 /-- **init_once_after_imports** — for every acyclic import graph and EVERY suspension schedule `sched` (each body
-    item may suspend any number of times), the run of the `$init` protocol initialises each reachable package
-    exactly once, runs each of its body items exactly once and only after the initialisation of all the packages it
-    imports has completed, and nothing overtakes a suspended initialiser.
-    `hsync` records the one assumption the emitted program makes: `$packages["runtime"].$init()` is called
-    synchronously, outside any goroutine, so the initialisers in the closure of `runtime` must not suspend. -/
+    item may suspend any number of times), the run of the `$init` protocol AS THE EMITTED PROGRAM STARTS IT — the
+    `runtime` phase on the synchronous machine `stepsSync`, where a suspension would lose the continuation, then
+    `$go($mainPkg.$init)` on the resumable machine — initialises each reachable package exactly once, runs each of its
+    body items exactly once and only after the initialisation of all the packages it imports has completed, and
+    nothing overtakes a suspended initialiser.
+    `hsync` (the initialisers in the dependency closure of `runtime` do not suspend) is USED by the proof and is
+    necessary (`boot_sync_needs_hsync`); for the real code it is a regenerated fact checked on every run
+    (`GV.Props.C10Env.runtime_closure_nonblocking`). -/
 theorem init_once_after_imports (G : Prog α) (sched : α → Nat → Nat) (rank : α → Nat) (hac : Acyclic G.imports rank)
     (fuel : Nat) (runtime main : α) (hr0 : rank runtime < fuel) (hr1 : rank main < fuel)
-    (_hsync : ∀ p, Reach G.imports runtime p → ∀ i, sched p i = 0) :
-    ∃ n m, (steps G sched m (call G (steps G sched n (bootState G runtime)) main)).stack = [] ∧
-      InitOrderOK G sched runtime main (steps G sched m (call G (steps G sched n (bootState G runtime)) main)).trace := by
-  obtain ⟨n, m, h1, h2⟩ := machine_eq_direct G sched rank hac fuel runtime main hr0 hr1
-  refine ⟨n, m, h1, ?_⟩
-  rw [h2]
+    (hsync : ∀ p, Reach G.imports runtime p → ∀ i, sched p i = 0) :
+    ∃ n m, (steps G sched m (call G (stepsSync G sched n (bootState G runtime)) main)).stack = [] ∧
+      InitOrderOK G sched runtime main (steps G sched m (call G (stepsSync G sched n (bootState G runtime)) main)).trace := by
+  obtain ⟨n, m, h⟩ := GV.Proofs.LinkBoot.boot_sync_program G sched fuel runtime main rank hac hr0 hr1 hsync
+  refine ⟨n, m, by rw [h], ?_⟩
+  rw [h]
   obtain ⟨a, b, c, d, e⟩ := init_once_after_imports_rec G sched fuel runtime main rank hac hr0 hr1
   exact ⟨a, b, c, d, e, no_overtaking_program G sched fuel runtime main⟩
+
+/-- **boot_sync_needs_hsync** — the hypothesis cannot be dropped: if an initialiser of the `runtime` closure
+    suspended, the synchronous boot call would lose it and the main package would be initialised without it
+    (concrete program: package 1 imports package 0 = runtime, whose only item suspends once). -/
+theorem boot_sync_needs_hsync :
+    ¬ ∃ n m, (steps GV.Proofs.LinkBoot.cexG GV.Proofs.LinkBoot.cexSched m
+        (call GV.Proofs.LinkBoot.cexG (stepsSync GV.Proofs.LinkBoot.cexG GV.Proofs.LinkBoot.cexSched n
+          (bootState GV.Proofs.LinkBoot.cexG 0)) 1)).trace
+      = programTrace GV.Proofs.LinkBoot.cexG GV.Proofs.LinkBoot.cexSched 2 0 1 :=
+  GV.Proofs.LinkBoot.boot_sync_needs_hsync
 
 /-- **init_suspension_invisible** — the schedule changes nothing but the suspensions themselves: with the `yield`
     events removed, the trace equals the trace of the run in which nothing ever suspends. -/
@@ -355,7 +369,7 @@ theorem import_order (l₁ l₂ : List String) (h : l₁.Perm l₂) : sortImport
 theorem read_link_iff (pkg c : Text) (l : Link) :
     readLinkname pkg c = .link l ↔
       (hasPrefix directivePrefix c = true ∧ ∃ kw loc ext, fields c = [kw, loc, ext] ∧ loc ≠ ext ∧
-        l = ⟨⟨pkg, loc⟩, ⟨(splitExt ext).1, (splitExt ext).2⟩⟩) := by
+        l = ⟨⟨pkg, loc⟩, ⟨(splitTarget ext).1, (splitTarget ext).2⟩⟩) := by
   unfold readLinkname
   cases hp : hasPrefix directivePrefix c
   · simp
@@ -409,10 +423,8 @@ theorem linkname_parse (pkg : Text) (uns : Bool) (lookup : Text → Node) (c : T
   all_goals (try (cases hm : isMitigatedVar l.reference <;> simp [hm]))
   all_goals (try simp_all)
 
-/-- **linkname_split** — `importPath.name` is split at the right place for every import path whose LAST element has no
-    dot (earlier elements may contain dots and slashes), and every name without a slash — in particular for
-    `Type.method` and `(*Type).method`. -/
-theorem linkname_split (dir last name : Text)
+/-- the raw split (linkname.go:60-68): `importPath.name` is cut at the first dot after the last slash -/
+theorem splitExt_spec (dir last name : Text)
     (hdir : dir = [] ∨ ∃ d, dir = d ++ ['/'])
     (hlast1 : '/' ∉ last) (hlast2 : '.' ∉ last) (hname : '/' ∉ name) :
     splitExt (dir ++ last ++ '.' :: name) = (dir ++ last, name) := by
@@ -449,11 +461,118 @@ theorem linkname_split (dir last name : Text)
       have : (d ++ ['/'] ++ last) ++ '.' :: name = (d ++ ['/'] ++ last ++ ['.']) ++ name := by simp
       rw [this, List.drop_left' (by simp; omega)]
 
-/-- The split is NOT right for an import path whose last element contains a dot (`gopkg.in/yaml.v2`): the package
-    cannot be named in a directive (gc requires the escaped form `yaml%2ev2`, which GopherJS does not unescape). -/
-theorem linkname_split_dotted_last_counterexample :
-    splitExt "gopkg.in/yaml.v2.F".toList ≠ ("gopkg.in/yaml.v2".toList, "F".toList) ∧
-    splitExt "gopkg.in/yaml.v2.F".toList = ("gopkg.in/yaml".toList, "v2.F".toList) := by
+/-- gc's spelling of the last path element inside a symbol name: every dot is written `%2e` -/
+def escDots (t : Text) : Text := t.flatMap fun c => if c = '.' then ['%', '2', 'e'] else [c]
+
+theorem pathUnescape_cons (c : Char) (hc : c ≠ '%') (t : Text) :
+    pathUnescape (c :: t) = (pathUnescape t).map (c :: ·) := by
+  match t with
+  | [] => simp [pathUnescape, hc]
+  | [a] => simp [pathUnescape, hc]
+  | a :: b :: rest => simp [pathUnescape, hc]
+
+theorem pathUnescape_append (a b : Text) (ha : '%' ∉ a) :
+    pathUnescape (a ++ b) = (pathUnescape b).map (a ++ ·) := by
+  induction a with
+  | nil => simp
+  | cons x xs ih =>
+    have hx : x ≠ '%' := fun h => ha (by simp [h])
+    have hxs : '%' ∉ xs := fun h => ha (List.mem_cons_of_mem _ h)
+    rw [List.cons_append, pathUnescape_cons x hx, ih hxs]
+    cases pathUnescape b <;> simp
+
+theorem pathUnescape_dot (t : Text) : pathUnescape ('%' :: '2' :: 'e' :: t) = (pathUnescape t).map ('.' :: ·) := by
+  have h2 : hexVal '2' = some 2 := by decide
+  have he : hexVal 'e' = some 14 := by decide
+  rw [pathUnescape]
+  simp only [if_true, h2, he]
+
+theorem pathUnescape_escDots (t : Text) (ht : '%' ∉ t) : pathUnescape (escDots t) = some t := by
+  induction t with
+  | nil => simp [escDots, pathUnescape]
+  | cons x xs ih =>
+    have hx : x ≠ '%' := fun h => ht (by simp [h])
+    have hxs : '%' ∉ xs := fun h => ht (List.mem_cons_of_mem _ h)
+    have ih' := ih hxs
+    unfold escDots at ih' ⊢
+    simp only [List.flatMap_cons]
+    by_cases hd : x = '.'
+    · subst hd
+      simp only [if_true, List.cons_append, List.nil_append]
+      rw [pathUnescape_dot, ih']; rfl
+    · simp only [hd, if_false, List.cons_append, List.nil_append]
+      rw [pathUnescape_cons x hx, ih']; rfl
+
+theorem escDots_not_mem (t : Text) (c : Char) (hc : c ∉ t) (h1 : c ≠ '%') (h2 : c ≠ '2') (h3 : c ≠ 'e') :
+    c ∉ escDots t := by
+  unfold escDots
+  intro h
+  rw [List.mem_flatMap] at h
+  obtain ⟨x, hx, hcx⟩ := h
+  by_cases hd : x = '.'
+  · simp only [hd, if_true, List.mem_cons, List.not_mem_nil, or_false] at hcx
+    rcases hcx with h | h | h
+    · exact h1 h
+    · exact h2 h
+    · exact h3 h
+  · simp only [hd, if_false, List.mem_singleton] at hcx
+    exact hc (hcx ▸ hx)
+
+theorem escDots_no_dot (t : Text) : '.' ∉ escDots t := by
+  unfold escDots
+  intro h
+  rw [List.mem_flatMap] at h
+  obtain ⟨x, _, hcx⟩ := h
+  by_cases hd : x = '.'
+  · simp only [hd, if_true, List.mem_cons, List.not_mem_nil, or_false] at hcx
+    rcases hcx with h | h | h <;> exact absurd h (by decide)
+  · simp only [hd, if_false, List.mem_singleton] at hcx
+    exact hd hcx.symm
+
+/-- **linkname_split** — full strength. The target `importpath.name` of a directive names package `dir ++ last`
+    (`dir` = the path up to and including the last slash, `last` = the last element) and symbol `name` when it is
+    spelled the way the gc toolchain spells it: the path as it is, except that every dot of the LAST element is written
+    `%2e` (`escDots`); earlier elements may contain dots and slashes; `name` may contain dots (`Type.method`,
+    `(*Type).method`) but no slash. Literal `%` characters in the path are outside the statement (gc spells them `%25`). -/
+theorem linkname_split (dir last name : Text)
+    (hdir : dir = [] ∨ ∃ d, dir = d ++ ['/'])
+    (hpct1 : '%' ∉ dir) (hpct2 : '%' ∉ last) (hlast : '/' ∉ last) (hname : '/' ∉ name) :
+    splitTarget (dir ++ escDots last ++ '.' :: name) = (dir ++ last, name) := by
+  unfold splitTarget
+  rw [splitExt_spec dir (escDots last) name hdir
+    (escDots_not_mem last '/' hlast (by decide) (by decide) (by decide)) (escDots_no_dot last) hname]
+  simp only []
+  rw [pathUnescape_append dir _ hpct1, pathUnescape_escDots last hpct2]
+  rfl
+
+/-- a last element without dots is spelled as it is -/
+theorem escDots_of_no_dot (t : Text) (h : '.' ∉ t) : escDots t = t := by
+  induction t with
+  | nil => rfl
+  | cons x xs ih =>
+    have hx : x ≠ '.' := fun e => h (by simp [e])
+    have hxs : '.' ∉ xs := fun e => h (List.mem_cons_of_mem _ e)
+    have := ih hxs
+    unfold escDots at this ⊢
+    simp only [List.flatMap_cons, hx, if_false, List.cons_append, List.nil_append, this]
+
+/-- **linkname_split_plain** — the common case: no dot in the last path element, the path is written verbatim -/
+theorem linkname_split_plain (dir last name : Text)
+    (hdir : dir = [] ∨ ∃ d, dir = d ++ ['/'])
+    (hpct1 : '%' ∉ dir) (hpct2 : '%' ∉ last) (hlast : '/' ∉ last) (hdot : '.' ∉ last) (hname : '/' ∉ name) :
+    splitTarget (dir ++ last ++ '.' :: name) = (dir ++ last, name) := by
+  have := linkname_split dir last name hdir hpct1 hpct2 hlast hname
+  rwa [escDots_of_no_dot last hdot] at this
+
+/-- **linkname_dotted_package** — the former finding, now positive: a package whose last path element contains a dot
+    is named by the gc spelling and the call resolves to it. (The plain spelling `m/pk.v2.impl` names package `m/pk`,
+    symbol `v2.impl` — exactly as with gc, where that symbol does not exist either.) -/
+theorem linkname_dotted_package :
+    readLinkname "m".toList "//go:linkname f m/pk%2ev2.impl".toList
+      = .link ⟨⟨"m".toList, "f".toList⟩, ⟨"m/pk.v2".toList, "impl".toList⟩⟩ ∧
+    callTarget [⟨⟨"m".toList, "f".toList⟩, ⟨"m/pk.v2".toList, "impl".toList⟩⟩]
+      [⟨"m/pk.v2".toList, "impl".toList⟩] ⟨"m".toList, "f".toList⟩ false = some ⟨"m/pk.v2".toList, "impl".toList⟩ ∧
+    splitTarget "m/pk.v2.impl".toList = ("m/pk".toList, "v2.impl".toList) := by
   decide
 
 /-- `IsMethod` on a name whose part before the first dot is `recv` -/
@@ -468,30 +587,6 @@ theorem isMethod_split (pkg recv m : Text) (h : '.' ∉ recv) :
     have : recv ++ '.' :: m = (recv ++ ['.']) ++ m := by simp
     rw [this, List.drop_left' (by simp)]
   simp only [e1, e2]
-
-/-- A package whose last path element contains a dot cannot be named by any of the two spellings: neither the
-    escaped one that gc requires (`%2e`, not unescaped by `readLinknameFromComment`) nor the plain one (split at the
-    wrong dot) resolves to `m/pk.v2.impl`. Witness replayed against the real compiler by checks/c10.py. -/
-theorem linkname_dotted_package_counterexample :
-    (∀ l, readLinkname "m".toList "//go:linkname f m/pk%2ev2.impl".toList = .link l →
-      resolve [l] [⟨"m/pk.v2".toList, "impl".toList⟩] ⟨"m".toList, "f".toList⟩ = none) ∧
-    (∀ l, readLinkname "m".toList "//go:linkname f m/pk.v2.impl".toList = .link l →
-      resolve [l] [⟨"m/pk.v2".toList, "impl".toList⟩] ⟨"m".toList, "f".toList⟩ = none) ∧
-    (∃ l, readLinkname "m".toList "//go:linkname f m/pk%2ev2.impl".toList = .link l) := by
-  refine ⟨?_, ?_, ?_⟩
-  · intro l h
-    have : l = ⟨⟨"m".toList, "f".toList⟩, ⟨"m/pk%2ev2".toList, "impl".toList⟩⟩ := by
-      have h' : readLinkname "m".toList "//go:linkname f m/pk%2ev2.impl".toList
-          = .link ⟨⟨"m".toList, "f".toList⟩, ⟨"m/pk%2ev2".toList, "impl".toList⟩⟩ := by decide
-      rw [h'] at h; exact (Read.link.inj h).symm
-    subst this; decide
-  · intro l h
-    have : l = ⟨⟨"m".toList, "f".toList⟩, ⟨"m/pk".toList, "v2.impl".toList⟩⟩ := by
-      have h' : readLinkname "m".toList "//go:linkname f m/pk.v2.impl".toList
-          = .link ⟨⟨"m".toList, "f".toList⟩, ⟨"m/pk".toList, "v2.impl".toList⟩⟩ := by decide
-      rw [h'] at h; exact (Read.link.inj h).symm
-    subst this; decide
-  · exact ⟨⟨⟨"m".toList, "f".toList⟩, ⟨"m/pk%2ev2".toList, "impl".toList⟩⟩, by decide⟩
 
 /-- **ismethod_value** — `importpath.Type.name` -/
 theorem ismethod_value (pkg typ name : Text) (h1 : '.' ∉ typ) (h2 : typ.head? ≠ some '(') :
@@ -539,31 +634,15 @@ theorem ismethod_func (pkg name : Text) (h : '.' ∉ name) : isMethod (symbolNew
 
 /-! ### resolution -/
 
-/-- The full-strength clause of the property: a function declared through go:linkname calls exactly the
-    implementation it names, from wherever it is called. NOT claimed: it is false of the code. -/
-def linkname_resolves_full : Prop :=
-  ∀ (all : List Link) (decls : List Sym) (ref impl : Sym) (samePackage : Bool),
-    findImplementation all ref = some impl → impl ∈ decls → (∀ d ∈ decls, d.str = impl.str → d = impl) →
-    callTarget all decls ref samePackage = some impl
-
-/-- **linkname_exported_counterexample** — witness replayed against the real compiler by checks/c10.py: package `pa`
-    declares `//go:linkname Rev m/pb.revimpl` on the exported bodyless `func Rev(x int) int`; a call `pa.Rev(5)` from
-    another package finds `$pkg.Rev` undefined (`pa.Rev is not a function`). -/
-theorem linkname_exported_counterexample : ¬ linkname_resolves_full := by
-  intro h
-  have := h [⟨⟨"m/pa".toList, "Rev".toList⟩, ⟨"m/pb".toList, "revimpl".toList⟩⟩]
-    [⟨"m/pb".toList, "revimpl".toList⟩] ⟨"m/pa".toList, "Rev".toList⟩ ⟨"m/pb".toList, "revimpl".toList⟩ false
-    (by decide) (by decide) (by decide)
-  exact absurd this (by decide)
-
-/-- **linkname_resolves_partial** — calls from inside the declaring package (the excluded inputs are exactly the
-    cross-package calls, hypothesis `samePackage = true`) reach the named implementation. -/
-theorem linkname_resolves_partial (all : List Link) (decls : List Sym) (ref impl : Sym)
+/-- **linkname_resolves** — full strength: a function declared through go:linkname calls exactly the implementation
+    it names, whether it is called from inside the declaring package or (an exported one) from another package.
+    `huniq`: no other declaration of the program has the same symbol string (symbol names are unique, symbol.go). -/
+theorem linkname_resolves (all : List Link) (decls : List Sym) (ref impl : Sym) (samePackage : Bool)
     (hf : findImplementation all ref = some impl) (hmem : impl ∈ decls)
     (huniq : ∀ d ∈ decls, d.str = impl.str → d = impl) :
-    callTarget all decls ref true = some impl := by
+    callTarget all decls ref samePackage = some impl := by
   unfold callTarget resolve
-  simp only [if_true, hf]
+  simp only [hf]
   have himpl : isImplementation all impl = true := by
     unfold findImplementation at hf
     cases hfi : all.find? (fun l => l.reference == ref) with
@@ -585,10 +664,29 @@ theorem linkname_resolves_partial (all : List Link) (decls : List Sym) (ref impl
     rw [List.mem_filter] at hdm
     rw [huniq d hdm.1 (by simpa using hd)]
 
-/-- the hypotheses of `linkname_resolves_partial` are satisfiable by a non-trivial program -/
+/-! ### repaired defects (about the scheme BEFORE the two `fix:` patches fixes/C10-*.patch)
+
+* Before "export bodyless go:linkname functions through $pkg" a cross-package call of an exported bodyless
+  reference found `$pkg.<Name>` undefined. -/
+
+/-- the old scheme: `$pkg.<Name>` was never assigned for a bodyless function -/
+def callTargetBeforeFix (all : List Link) (decls : List Sym) (ref : Sym) (samePackage : Bool) : Option Sym :=
+  if samePackage then resolve all decls ref else none
+
+theorem old_scheme_exported_counterexample :
+    callTargetBeforeFix [⟨⟨"m/pa".toList, "Rev".toList⟩, ⟨"m/pb".toList, "revimpl".toList⟩⟩]
+      [⟨"m/pb".toList, "revimpl".toList⟩] ⟨"m/pa".toList, "Rev".toList⟩ false = none := by decide
+
+/-- Before "accept the gc spelling of escaped import paths" the package part was not unescaped: the raw split of the
+    gc spelling names the non-existent package `m/pk%2ev2`, and the plain spelling is cut at the wrong dot. -/
+theorem old_scheme_dotted_counterexample :
+    splitExt "m/pk%2ev2.impl".toList = ("m/pk%2ev2".toList, "impl".toList) ∧
+    splitExt "gopkg.in/yaml.v2.F".toList = ("gopkg.in/yaml".toList, "v2.F".toList) := by decide
+
+/-- the hypotheses of `linkname_resolves` are satisfiable by a non-trivial program -/
 example : callTarget
     [⟨⟨"m/pa".toList, "ref".toList⟩, ⟨"m/x.y/pb".toList, "(*T).m".toList⟩⟩]
     [⟨"m/pa".toList, "ref".toList⟩, ⟨"m/x.y/pb".toList, "(*T).m".toList⟩]
-    ⟨"m/pa".toList, "ref".toList⟩ true = some ⟨"m/x.y/pb".toList, "(*T).m".toList⟩ := by decide
+    ⟨"m/pa".toList, "ref".toList⟩ false = some ⟨"m/x.y/pb".toList, "(*T).m".toList⟩ := by decide
 
 end GV.Props.C10
